@@ -99,7 +99,7 @@ def make_cfg(seed, i):
     cfg["args_mode"] = gen.pick(rng, ["none", "h", "prox", "both"], p=[0.4, 0.15, 0.15, 0.3])
     if r() < 0.15:
         # regularised runs with soft restarts that grow the point set (the only route into Model.add_new_point)
-        cfg["restarts"] = dict(increase_npt=bool(r() < 0.8), rhoend=float(10.0 ** rng.uniform(-4, -2)))
+        cfg["restarts"] = dict(increase_npt=bool(r() < 0.8), rhoend=float(10.0 ** rng.uniform(-6, -3)))
         cfg["maxfun"] = int(gen.pick(rng, [80, 150]))
     return cfg
 
@@ -314,11 +314,24 @@ def run_case(case):
         if Ftrue - Fstar < -1e-7 * (1 + Fstar):
             res["inconclusive"].append("dfols point beats the certified reference (%r < %r)" % (Ftrue, Fstar))
             return res
-    if not (gap <= tol):
+    coarse = False
+    if cfg.get("restarts"):
+        # this family passes its own (coarse) rhoend so that restarts happen within the budget; the property is stated for the default
+        # rhoend. The iterate can legitimately stop ~rhoend away from the minimiser, which costs up to Lip(F)*rhoend in objective:
+        # the optimality clause is only applied when that is two orders below the tolerance (the bookkeeping clauses always are)
+        lip = lam * (np.sqrt(n) if cfg["reg"] == "l1" else 1.0) + 2.0 * float(np.linalg.norm(A, 2)) * float(np.linalg.norm(A @ xstar - b))
+        coarse = bool(100.0 * lip * cfg["restarts"]["rhoend"] > tol)
+        if coarse:
+            st["optimality_clause_skipped_coarse_rhoend"] = 1
+    if not (gap <= tol) and not coarse:
         res["viol"].append(V("not-optimal", "F - F* = %.3e > 1e-3(1+F*) = %.3e (family %s, reg %s, lam %.2e, n=%d, flag %d %s, nf %d)" % (
             gap, tol, cfg.get("family"), cfg["reg"], lam, n, s.flag, s.msg[:40], s.nf), known=classify("not-optimal", cfg, gap, tol, s.flag),
             gap=gap, Fstar=Fstar, obj=s.obj, x=s.x, xstar=xstar, cfg=cfg))
-    if s.flag != s.EXIT_SUCCESS:
+    if cfg.get("restarts") and s.flag == s.EXIT_MAXFUN_WARNING:
+        # restarts never stop by themselves before max_unsuccessful_restarts: running into the (reduced) budget of this family is
+        # what the options ask for, not a failure to report success
+        st["restart_family_ended_on_budget"] = 1
+    elif s.flag != s.EXIT_SUCCESS:
         res["viol"].append(V("no-success-flag", "flag=%d (%s), gap %.3e (tol %.3e), nf=%d, family %s" % (s.flag, s.msg, gap, tol, s.nf, cfg.get("family")),
                              known=classify("no-success-flag", cfg, gap, tol, s.flag), flag=s.flag, gap=gap, cfg=cfg))
     if s.nf >= n + 2:
